@@ -439,7 +439,7 @@ Qed.
 
 Theorem start_opens_batch now p d t batch pid created tasks src :
   Ready p d t -> 0 < t -> t <= Z.of_nat (length (dc_quorum d)) ->
-  batch <> 0%N -> tasks <> [] -> 0 <= pid -> is_zero_time created = false -> forallb task_valid tasks = true ->
+  batch <> 0%N -> tasks <> [] -> 0 <= pid -> is_zero_time created = false -> tasks_valid tasks = true ->
   exists p' g' resp,
     round_step now (mkd st_idle p) ev_sgn_start (RStart batch pid created tasks src) = SOk (mkd st_await p') st_await (Some resp) /\
     Aw p' g' batch /\ Ready p' d t /\ gc_quorum g' = start_quorum d created /\ gc_src g' = src.
@@ -474,7 +474,7 @@ Qed.
 (* ---- from the proposal to the collection ---- *)
 Theorem proposed_batch_collects now p d t H batch pid created tasks src (l : list input) :
   Ready p d t -> 0 < t -> t <= Z.of_nat (length (dc_quorum d)) ->
-  batch <> 0%N -> tasks <> [] -> 0 <= pid -> is_zero_time created = false -> forallb task_valid tasks = true ->
+  batch <> 0%N -> tasks <> [] -> 0 <= pid -> is_zero_time created = false -> tasks_valid tasks = true ->
   NoDup H -> t <= Z.of_nat (length H) ->
   (forall i, In i H -> (exists a, qget (dc_quorum d) i = Some a) /\
                        exists req, In (ev_sgn_partial, req) l /\ good_req batch i req) ->
